@@ -128,6 +128,7 @@ class Producer(object):
         self._item_source = item_source
         self._item_queue = item_queue
         self._running = False
+        self._stop_requested = False
 
     @asyncio.coroutine
     def process_one(self):
@@ -140,7 +141,8 @@ class Producer(object):
 
     @asyncio.coroutine
     def process(self):
-        self._running = True
+        # A stop requested before this coroutine first runs must not be lost.
+        self._running = not self._stop_requested
 
         while self._running:
             item = yield from self.process_one()
@@ -152,6 +154,8 @@ class Producer(object):
                 yield from self._item_queue.wait_for_worker()
 
     def stop(self):
+        self._stop_requested = True
+
         if self._running:
             _logger.debug('Producer stopping.')
             self._running = False
@@ -233,7 +237,19 @@ class Pipeline(object):
 
         self._worker_tasks.clear()
 
-        yield from self._producer_task
+        producer_cancelled = False
+
+        if not self._producer_task.done():
+            # No worker is left to take items off the queue, so a producer
+            # waiting to put its next item there would wait forever.
+            self._producer_task.cancel()
+            producer_cancelled = True
+
+        try:
+            yield from self._producer_task
+        except asyncio.CancelledError:
+            if not producer_cancelled:
+                raise
 
         self._state = PipelineState.stopped
 
